@@ -122,6 +122,10 @@ Exts(var, up) ==
     [] var = 3 -> <<E(44, up, <<0, 0, 0, 18, 52, 86, 120>>)>>                      \* fragment (offset 0, M=0)
     [] var = 4 -> <<E(0, 43, <<1, 4, 0, 0, 0, 0>>), E(43, 60, <<0, 0, 0, 0, 0, 0>>),
                     E(60, up, <<1, 4, 0, 0, 0, 0>>)>>                              \* three in the RFC's order
+    [] var = 5 -> <<E(43, up, <<253, 0, 0, 0, 0, 0>>)>>                            \* routing (experimental type, 0 segments left)
+    [] var = 6 -> <<E(0, 44, <<1, 4, 0, 0, 0, 0>>), E(44, up, <<0, 0, 0, 1, 2, 3, 4>>)>>   \* hop-by-hop, then an atomic fragment
+    [] var = 7 -> <<E(60, 43, <<1, 4, 0, 0, 0, 0>>), E(43, 44, <<0, 0, 0, 0, 0, 0>>), E(44, 60, <<0, 0, 0, 9, 8, 7, 6>>),
+                    E(60, up, <<1, 12>> \o Zeros(12))>>                            \* four, destination options twice
     [] OTHER -> <<>>
 FirstNh(es, up) == IF es = <<>> THEN up ELSE es[1].t
 
@@ -175,6 +179,7 @@ Dns(li, var, d) ==
       nsn == Nm(9, net)
       ttl == VB(d, li, 20, 4)
       big == <<Str(63, 3), org>>                                 \* the longest label
+      ex == Str(7, 2)  w3 == Str(3, 1)  m4 == Str(4, 6)  x1 == Str(1, 9)  a1 == Str(1, 12)  b1 == Str(1, 15)  c2 == Str(2, 18)
       base == Mk("dns", li, NoFix, d)
       body == CASE var = 1 -> [qs |-> <<Q(www, 1)>>, ans |-> <<>>, auth |-> <<>>, add |-> <<>>]
                 [] var = 2 -> [qs |-> <<Q(www, 1)>>,
@@ -187,6 +192,38 @@ Dns(li, var, d) ==
                                auth |-> <<>>, add |-> <<>>]                   \* pointers beyond offset 1023
                 [] var = 4 -> [qs |-> <<Q(www, 255), Q(nsn, 1)>>, ans |-> <<>>, auth |-> <<>>,
                                add |-> <<RR(www, 41, ttl, RawD(<<>>))>>]        \* two questions, empty rdata
+                \* ---- names that share suffixes (free-form serialisation, RFC 1035 4.1.4)
+                \* www.example.com, mail.example.com, x.mail.example.com: the third has the second - which a
+                \* compressing sender ends in a pointer - as a suffix
+                [] var = 5 -> [qs |-> <<Q(<<w3, ex, com>>, 1)>>,
+                               ans |-> <<RR(<<m4, ex, com>>, 1, ttl, RawD(VB(d, li, 21, 4))),
+                                         RR(<<x1, m4, ex, com>>, 1, ttl, RawD(VB(d, li, 22, 4)))>>,
+                               auth |-> <<>>, add |-> <<>>]
+                \* a chain of four through owner names and names in RDATA, starting from a two-label name
+                [] var = 6 -> [qs |-> <<Q(<<ex, org>>, 255)>>,
+                               ans |-> <<RR(<<a1, ex, org>>, 5, ttl, NameD(<<b1, a1, ex, org>>)),
+                                         RR(<<b1, a1, ex, org>>, 1, ttl, RawD(VB(d, li, 21, 4)))>>,
+                               auth |-> <<RR(<<ex, org>>, 2, ttl, NameD(<<c2, b1, a1, ex, org>>))>>,
+                               add |-> <<RR(<<c2, b1, a1, ex, org>>, 28, ttl, RawD(VB(d, li, 22, 16)))>>]
+                \* two chains and siblings, opaque RDATA in between, a name first seen inside RDATA
+                [] var = 7 -> [qs |-> <<Q(<<w3, ex, net>>, 1), Q(<<m4, ex, net>>, 1)>>,
+                               ans |-> <<RR(<<a1, m4, ex, net>>, 16, ttl, RawD(<<11>> \o Str(11, 4))),
+                                         RR(<<x1, ex, net>>, 12, ttl, NameD(<<c2, a1, m4, ex, net>>)),
+                                         RR(<<b1, x1, ex, net>>, 1, ttl, RawD(VB(d, li, 21, 4)))>>,
+                               auth |-> <<RR(<<c2, a1, m4, ex, net>>, 2, ttl, NameD(<<w3, ex, net>>))>>,
+                               add |-> <<RR(<<b1, b1, x1, ex, net>>, 1, ttl, RawD(VB(d, li, 23, 4)))>>]
+                \* a one-label name, and names in which a label repeats (com, example.com, com.example.com, ...)
+                [] var = 8 -> [qs |-> <<Q(<<com>>, 2)>>,
+                               ans |-> <<RR(<<ex, com>>, 1, ttl, RawD(VB(d, li, 21, 4))),
+                                         RR(<<com, ex, com>>, 1, ttl, RawD(VB(d, li, 22, 4))),
+                                         RR(<<ex, com, ex, com>>, 5, ttl, NameD(<<com>>))>>,
+                               auth |-> <<>>, add |-> <<>>]
+                \* pointer targets beyond offset 255, into a name that follows 300 opaque bytes
+                [] var = 9 -> [qs |-> <<Q(<<w3, ex, com>>, 16)>>,
+                               ans |-> <<RR(<<w3, ex, com>>, 16, ttl, RawD(Pattern(300, 1, 3))),
+                                         RR(<<m4, ex, org>>, 2, ttl, NameD(<<a1, m4, ex, org>>)),
+                                         RR(<<x1, a1, m4, ex, org>>, 1, ttl, RawD(VB(d, li, 21, 4)))>>,
+                               auth |-> <<>>, add |-> <<RR(<<b1, ex, org>>, 1, ttl, RawD(VB(d, li, 22, 4)))>>]
                 [] OTHER -> [qs |-> <<>>, ans |-> <<>>, auth |-> <<>>, add |-> <<>>]
   IN base @@ body @@ [cmp |-> 0]
 NO(t, dd) == [t |-> t, d |-> dd]
@@ -251,6 +288,9 @@ TailStack(d) ==
     [] d.fam = "dns"    -> IpUdp(d, VU(d, 3, 1, 16), 53) \o <<Dns(4, d.var, d)>>
     [] d.fam = "dnsr"   -> IpUdp(d, 53, VU(d, 3, 2, 16)) \o <<Dns(4, d.var, d)>>
     [] d.fam = "mdns"   -> IpUdp(d, 5353, 5353) \o <<Dns(4, d.var, d)>>
+    \* DNS over UDP over IPv6, also behind extension headers (var = 16 * chain + message variant)
+    [] d.fam = "dns6"   -> <<Eth(1, 34525, d), Ip6(2, FirstNh(Exts(d.var \div 16, 17), 17), Exts(d.var \div 16, 17), d),
+                             UdpTo(3, VU(d, 3, 1, 16), 53, d), Dns(4, d.var % 16, d)>>
     [] d.fam = "dhcp"   -> IpUdp(d, 68, 67) \o <<Dhcp(4, 6, d.var, d)>>
     [] d.fam = "dhcpr"  -> IpUdp(d, 67, 68) \o <<Dhcp(4, 16, d.var, d)>>
     [] d.fam = "ns"     -> <<Eth(1, 34525, d), Ip6(2, 58, <<>>, d), Icmp6(3, 135, d), Nd("ns", 4, d.var, d)>>
@@ -261,8 +301,21 @@ TailStack(d) ==
                                Ip6(5, 17, <<>>, d), Udp(6, d)>> \o r
     [] d.fam = "toobig" -> <<Eth(1, 34525, d), Ip6(2, 58, <<>>, d), Icmp6(3, 2, d), Mk("toobig", 4, NoFix, d)>> \o r
     [] d.fam = "timex6" -> <<Eth(1, 34525, d), Ip6(2, 58, <<>>, d), Icmp6(3, 3, d), Mk("timex6", 4, [unused4 |-> <<0, 0, 0, 0>>], d)>> \o r
+    \* ---- upper-layer headers behind IPv6 extension headers (RFC 8200 8.1: the pseudo-header carries the
+    \* upper-layer protocol and the upper-layer length, not what the IPv6 header says).  var = 16 * chain + rest
+    [] d.fam = "tcp6x"  -> <<Eth(1, 34525, d), Ip6(2, FirstNh(Exts(d.var \div 16, 6), 6), Exts(d.var \div 16, 6), d),
+                             Tcp(3, TcpOpts(d.var % 16, d, 3), d)>> \o r
+    [] d.fam = "nd6x"   -> <<Eth(1, 34525, d), Ip6(2, FirstNh(Exts(d.var \div 16, 58), 58), Exts(d.var \div 16, 58), d),
+                             Icmp6(3, 135, d), Nd("ns", 4, d.var % 16, d)>>
+    [] d.fam = "toobig6x" -> <<Eth(1, 34525, d), Ip6(2, FirstNh(Exts(d.var \div 16, 58), 58), Exts(d.var \div 16, 58), d),
+                               Icmp6(3, 2, d), Mk("toobig", 4, NoFix, d)>> \o r
+    \* an ICMPv6 error quoting a TCP segment / a datagram that itself has extension headers
+    [] d.fam = "unreach6t" -> <<Eth(1, 34525, d), Ip6(2, 58, <<>>, d), Icmp6(3, 1, d), Mk("unreach6", 4, NoFix, d),
+                                Ip6(5, FirstNh(Exts(d.var \div 16, 6), 6), Exts(d.var \div 16, 6), d),
+                                Tcp(6, TcpOpts(d.var % 16, d, 6), d)>> \o r
 TailFams == {"dns", "dnsr", "mdns", "icmpcarry", "udpzero", "tcpzero", "udp6zero", "greip", "greteb", "grex", "vxlan", "vxlanip", "igmp", "igmp3", "rip", "eapol", "eapolkey", "eap", "eapend",
-             "dhcp", "dhcpr", "ns", "na", "rs", "ra", "unreach6", "toobig", "timex6"}
+             "dhcp", "dhcpr", "ns", "na", "rs", "ra", "unreach6", "toobig", "timex6",
+             "tcp6x", "nd6x", "toobig6x", "unreach6t", "dns6"}
 
 Stack(d) ==
   LET r == Raw(d) IN
